@@ -331,6 +331,19 @@ type ReadOutcome struct {
 // every delivered record at callback time and closing its bank. cbErrAt >= 0
 // makes the callback fail at that record index with cbErr.
 func readAll(target reflect.Type, rd avro.Reader, cbErrAt int, cbErr error) (out ReadOutcome) {
+	return readAllOut(target, false, rd, cbErrAt, cbErr)
+}
+
+// outFor builds the `out` argument of ReadFile: a struct value, or a pointer
+// to a struct the caller owns.
+func outFor(target reflect.Type, ptr bool) any {
+	if ptr {
+		return reflect.New(target).Interface()
+	}
+	return reflect.New(target).Elem().Interface()
+}
+
+func readAllOut(target reflect.Type, outPtr bool, rd avro.Reader, cbErrAt int, cbErr error) (out ReadOutcome) {
 	defer func() {
 		if p := recover(); p != nil {
 			out.Panic = p
@@ -342,7 +355,7 @@ func readAll(target reflect.Type, rd avro.Reader, cbErrAt int, cbErr error) (out
 	}()
 	heapHygiene()
 	i := 0
-	out.Err = avro.ReadFile(rd, reflect.New(target).Elem().Interface(), func(val unsafe.Pointer, rb *avro.ResourceBank) error {
+	out.Err = avro.ReadFile(rd, outFor(target, outPtr), func(val unsafe.Pointer, rb *avro.ResourceBank) error {
 		v := reflect.NewAt(target, val).Elem()
 		out.Delivered = append(out.Delivered, DeepCopy(v))
 		rb.Close()
